@@ -3,6 +3,7 @@ package main
 import (
 	"encoding/json"
 	"fmt"
+	"github.com/Trendyol/go-dcp/config"
 	"math"
 	"strings"
 
@@ -17,6 +18,8 @@ import (
 
 type RollbackParams struct {
 	Fail string `json:"fail"` // "", "failoverlog", "reopen"
+	// Finite: dcp.mode finite - the end of every request is the high seqno sampled at open
+	Finite bool `json:"finite"`
 }
 
 type foShape struct{ starts []uint64 }
@@ -50,6 +53,7 @@ func init() {
 		Instances: func(tier string) []Instance {
 			return []Instance{
 				{Scenario: "c08_rollback", Params: mustJSON(RollbackParams{}), Bound: 0, Shards: 8},
+				{Scenario: "c08_rollback", Params: mustJSON(RollbackParams{Finite: true}), Bound: 0, Shards: 8, Note: "finite mode: the re-request after the rollback has the same (bounded) end"},
 				{Scenario: "c08_rollback", Params: mustJSON(RollbackParams{Fail: "failoverlog"}), Bound: 0, Shards: 2},
 				{Scenario: "c08_rollback", Params: mustJSON(RollbackParams{Fail: "reopen"}), Bound: 0, Shards: 2},
 				{Scenario: "c08_rollback", Params: mustJSON(RollbackParams{Fail: "failoverlog-silent"}), Bound: 0, Shards: 2, Note: "the failover-log query is never answered"},
@@ -86,6 +90,9 @@ func rollbackMain(p RollbackParams) {
 		}
 	}
 	o := EnvOpts{Vbs: 2, CheckpointType: "manual", WrapMeta: true}
+	if p.Finite {
+		o.Mode = config.DcpModeFinite
+	}
 	c := NewCluster(&o)
 	const oldUUID = 900
 	// old branch: the client has checkpointed F on it
@@ -222,13 +229,19 @@ func rollbackMain(p RollbackParams) {
 			break
 		}
 	}
-	if first[3] != math.MaxUint64 {
+	if !p.Finite && first[3] != math.MaxUint64 {
 		vrt.Failf("%s: end of an infinite-mode request is %d", desc, first[3])
+	}
+	if p.Finite && first[3] != F+2 {
+		vrt.Failf("%s: end of the finite-mode request is %d, the high seqno sampled at open is %d", desc, first[3], F+2)
 	}
 	// consumer: nothing at or below F, every document above F, offsets on the new branch
 	var wantSeqs []uint64
 	for _, pk := range log {
 		if isDoc(pk.Kind) && pk.Seq > F && pk.Seq > R {
+			if p.Finite && pk.Seq > first[3] {
+				continue // beyond the end of the finite run
+			}
 			wantSeqs = append(wantSeqs, pk.Seq)
 		}
 	}
